@@ -586,6 +586,10 @@ def g_godambe(s, P, light=True):
         if r < 0.25:
             lg = s.chance(0.3)
             P.add('G.FIM_uncert', f, pts, W(p0), data, **dict(multinom=multinom, eps=eps, log=lg))
+            if s.chance(0.3):
+                # the caller masks one more entry of its data in place and repeats the call on the same object
+                P.add('S.mask_entry', data, s.randint(1, 6))
+                P.add('G.FIM_uncert', f, pts, W(p0), data, **dict(multinom=multinom, eps=eps, log=lg))
             if s.chance(0.4):
                 # the same call on another grid setting (E5: everything but the grid agrees)
                 P.add('G.FIM_uncert', f, [14] if pts != [14] else [10], W(p0), data, **dict(multinom=multinom, eps=eps, log=lg))
